@@ -794,6 +794,11 @@ def oracle_serde(cfg, ops, steps):
             o = st.O.get(p[1])
             if o is not None and o.get('vals') not in ('big', None) and st.result[3:] != o['vals']:
                 out.append(Finding(st.n, '`%s`: serialised `%s`, the collection shows `%s`' % (op, st.result[3:80], o['vals'][:80])))
+            elif o is not None and o.get('gets') not in ('big', None) and o.get('vals') not in ('big', None):
+                # ... and what it shows by iteration is what it shows by indexed reads (the serializer iterates)
+                g = o['gets'].split(',')[:int(o['len'])] if o['gets'] != '-' else []
+                if int(o['len']) and ','.join(g) != st.result[3:]:
+                    out.append(Finding(st.n, '`%s`: serialised `%s`, indexed reads give `%s`' % (op, st.result[3:80], ','.join(g)[:80])))
         if p[0] in ('serde_list', 'serde_vec') and st.result in ('ok', 'err:serde'):
             vs = [] if p[2] == '-' else p[2].split(',')
             ok = len(vs) <= cfg.n if p[0] == 'serde_list' else len(vs) == cfg.n
